@@ -793,9 +793,12 @@ class Renderer:
     out = []
     i = 0
     while i < len(items):
-      if depth < 2 and self.flag('frame', 3):
+      carrier = False
+      if depth < 2 and 'frame' not in self.kinds and self.flag('defaults', 5):
+        carrier = True            # a frame used (also) as a carrier of childclass, a common idiom
+      if depth < 2 and (carrier or self.flag('frame', 3)):
         n = self.draw(st.integers(1, 3))
-        Fp = self.draw_pose()
+        Fp = IDENT if carrier and self.draw(st.booleans()) else self.draw_pose()
         f = self.node('frame', pose=Fp)
         f['ch'] = self.build(items[i:i + n], compose(Fa, Fp), depth + 1, permute=False)
         self.stats.add('frame:nested' if depth else 'frame')
@@ -969,7 +972,7 @@ class _Part2:
       for n in nodes:
         t = n['t']
         if t in ('body', 'frame'):
-          cc = pick(3)
+          cc = pick(2 if t == 'frame' else 3)
           if cc is not None and self.classes[cc]['name'] is not None:
             n['childclass'] = cc
             self.stats.add('defaults:childclass-' + t)
